@@ -177,7 +177,17 @@ func (s *SSD) OnSurvey(surveyType string, payload []byte) ([]byte, bool) {
 
 // Lookup performs a against the storage.
 func (s *SSD) lookup(q lookupQuery) (matches message.Frame) {
-	matches = make(message.Frame, 0, q.Limit)
+	if q.Limit < 0 {
+		q.Limit = 0
+	}
+
+	// The limit is provided by the client, do not trust it for pre-allocation
+	capacity := q.Limit
+	if capacity > maxPrealloc {
+		capacity = maxPrealloc
+	}
+
+	matches = make(message.Frame, 0, capacity)
 	if err := s.db.View(func(tx *badger.Txn) error {
 		it := tx.NewIterator(badger.IteratorOptions{
 			PrefetchValues: false,
